@@ -9,7 +9,9 @@ import (
 	"fmt"
 	"math/rand"
 	"os"
+	"os/signal"
 	"strconv"
+	"syscall"
 	"time"
 )
 
@@ -236,50 +238,47 @@ func IfInt32(c bool, a, b int32) int32 {
 
 // ---- store fault injection (C09) ----
 //
-// Symbolically, FSFaultNext(path, mode) makes the next WriteFile to path behave as: 0 success,
-// 1 error before the file is touched, 2 error after a proper prefix was written (disk full),
-// 3 process killed before the file is touched, 4 process killed part-way through the write.
-// Natively the real write always completes; FSEmulate then puts the file into the state the
-// fault would have left (previous content, or a proper prefix of the new content), which is the
-// store state a restart sees.
+// Symbolically, FSFaultNext(path, mode) makes the next WriteFile (to path, or to any file if path
+// is "*") behave as: 0 success, 1 error before the file is touched, 2 error after a proper prefix
+// was written (disk full), 3 process killed before the file is touched, 4 process killed part-way
+// through the write.
+// Natively the same store states are produced without knowing how the code writes its store:
+// for modes 2 and 4 the process file-size limit (RLIMIT_FSIZE) is lowered to a few bytes while
+// the update runs, so that whatever file it writes breaks off part-way; for modes 1 and 3 the
+// update is skipped (FSSkip), which leaves the store untouched. A killed process and a failed
+// write leave the same files behind; only the store state matters to the restart that follows.
 
-var fsSaved = map[string][]byte{}
-var fsSavedAbsent = map[string]bool{}
-var fsMode = map[string]int{}
+var fsMode int
+var fsOldLimit syscall.Rlimit
 
 func FSFaultNext(path string, mode int) {
-	fsMode[path] = mode
-	b, err := os.ReadFile(path)
-	if err != nil {
-		fsSavedAbsent[path] = true
-		delete(fsSaved, path)
-	} else {
-		fsSaved[path] = b
-		delete(fsSavedAbsent, path)
+	fsMode = mode
+	if mode == 2 || mode == 4 {
+		off := int(num("fault.offset"))
+		if off < 0 {
+			off = -off
+		}
+		signal.Ignore(syscall.SIGXFSZ)
+		_ = syscall.Getrlimit(syscall.RLIMIT_FSIZE, &fsOldLimit)
+		lim := fsOldLimit
+		lim.Cur = uint64(off % 24)
+		_ = syscall.Setrlimit(syscall.RLIMIT_FSIZE, &lim)
 	}
 }
 
-// FSEmulate applies the effect of the pending fault on path; offset chooses the prefix length.
-func FSEmulate(path string, offset int) {
-	mode := fsMode[path]
-	delete(fsMode, path)
-	switch mode {
-	case 1, 3:
-		if fsSavedAbsent[path] {
-			os.Remove(path)
-		} else {
-			os.WriteFile(path, fsSaved[path], 0755)
-		}
-	case 2, 4:
-		b, err := os.ReadFile(path)
-		if err == nil && len(b) > 0 {
-			if offset < 0 {
-				offset = -offset
-			}
-			os.WriteFile(path, b[:offset%len(b)], 0755)
-		}
+// FSSkip: natively, the interrupted update is not started at all for the "file untouched" faults.
+func FSSkip() bool { return fsMode == 1 || fsMode == 3 }
+
+// FSFaultEnd ends the fault window.
+func FSFaultEnd() {
+	if fsMode == 2 || fsMode == 4 {
+		_ = syscall.Setrlimit(syscall.RLIMIT_FSIZE, &fsOldLimit)
 	}
+	fsMode = 0
 }
+
+// FSEmulate is kept for harnesses that emulate faults by editing files (unused natively now).
+func FSEmulate(path string, offset int) {}
 
 // FaultCrashes reports whether a fault mode kills the process.
 func FaultCrashes(mode int) bool { return mode == 3 || mode == 4 }
